@@ -1045,6 +1045,21 @@ def getitem(obj, key):
     return obj[key]
 
 
+def rt_get(obj, key, *default):
+    """obj.get(key[, default]); a dict looked up with a symbolic string compares against the keys of that length"""
+    tk = type(key)
+    if tk is TailView:
+        tk = SymStr
+    if tk is SymStr and isinstance(obj, dict):
+        for k, v in obj.items():
+            if isinstance(k, str) and len(k) == len(key) and key == k:
+                return v
+        return default[0] if default else None
+    if tk is SymInt and isinstance(obj, dict):
+        key = key.concretize()
+    return obj.get(key, *default)
+
+
 def join(sep, parts):
     if type(parts) is str and type(sep) is str:
         return sep.join(parts)
@@ -1082,6 +1097,36 @@ def fstr(*parts):
                     raise
                 out += SymStr.items(r)
     return SymStr.mk(out)
+
+
+def fval(value, conv, spec):
+    """one replacement field {value!conv:spec} of an f-string whose value may be a proxy"""
+    if conv == 114:
+        value = repr(value)
+    elif conv == 115:
+        value = value if isinstance(value, (str, SymStr)) else str(value)
+    elif conv == 97:
+        value = ascii(value)
+    if isinstance(spec, SymStr):
+        spec = spec.unique()
+    if isinstance(value, SymStr):
+        if spec == "":
+            return value
+        import re as _re
+        m = _re.fullmatch(r"([<>^]?)(\d+)", spec)
+        if m:
+            pad = int(m.group(2)) - len(value)
+            if pad <= 0:
+                return value
+            if m.group(1) == ">":
+                return " " * pad + value
+            if m.group(1) == "^":
+                return " " * (pad // 2) + value + " " * (pad - pad // 2)
+            return value + " " * pad
+        return format(value.unique(), spec)
+    if isinstance(value, Rope):
+        return "<sym>"
+    return format(value, spec)       # SymInt.__format__ concretises (bounded fork), as a native f-string would
 
 
 def fstr_spec(value, spec):
